@@ -47,7 +47,13 @@ let split_on (sep : string) (toks : string list) : string list list =
 let ints (l : string list) = L.map int_of_string l
 let show_ints l = String.concat " " (L.map string_of_int l)
 
-module Check (M : MODEL) = struct
+module type MODEL_ND = sig
+  include MODEL
+  val step_nd : st -> op -> (st * out) list (* all outcomes of a composite operation whose sub-steps may interleave with
+                                               internal steps; [step s o] alone for atomic operations *)
+end
+
+module CheckND (M : MODEL_ND) = struct
   (* K1: sequential run *)
   let k1 (caseid : string) (cfg : int list) (ops : int list list) (outs : int list list) : int * string option =
     let rec go s i ops outs =
@@ -110,15 +116,15 @@ module Check (M : MODEL) = struct
             if Bytes.get don idx = '0' && h.(idx).inv < !minret then begin
               (* option A: linearize op idx now *)
               L.iter (fun s0 ->
-                if not !found then begin
-                  let (s', r') = M.step s0 h.(idx).o in
-                  let ok = if h.(idx).pending then true else (M.ints_of_out r' = h.(idx).r) in
-                  if ok && not (h.(idx).pending && false) then begin
-                    let don' = Bytes.copy don in
-                    Bytes.set don' idx '1';
-                    if search don' (ndone + 1) s' (idx :: acc) then found := true
-                  end
-                end) states;
+                L.iter (fun (s', r') ->
+                  if not !found then begin
+                    let ok = if h.(idx).pending then true else (M.ints_of_out r' = h.(idx).r) in
+                    if ok then begin
+                      let don' = Bytes.copy don in
+                      Bytes.set don' idx '1';
+                      if search don' (ndone + 1) s' (idx :: acc) then found := true
+                    end
+                  end) (M.step_nd s0 h.(idx).o)) states;
               (* option B: a pending op may never take effect *)
               if not !found && h.(idx).pending then begin
                 let don' = Bytes.copy don in
@@ -186,6 +192,8 @@ module Check (M : MODEL) = struct
       M.name !stats_cases !stats_bad !stats_k2 !stats_k2bad !stats_steps !stats_visited
 end
 
+
+module Check (M : MODEL) = CheckND (struct include M let step_nd s o = [M.step s o] end)
 
 (* ---------- registry: adapters register a handler per model name ---------- *)
 let handlers : (string, (string -> string -> string list -> unit)) Hashtbl.t = Hashtbl.create 16
